@@ -119,6 +119,12 @@ func main() {
 	fset := token.NewFileSet()
 	imp := importer.ForCompiler(fset, "source", nil)
 	nextSite := 1
+	var unbufferedMakes, sends []string
+	unbufObjs := map[types.Object]bool{} // variables assigned an unbuffered channel
+	sendObjs := map[types.Object]bool{}  // local variables that are sent on
+	knownMakes := map[token.Pos]bool{}   // unbuffered makes whose variable is known
+	var allMakes []token.Pos
+	unknownSend := false // a send on a parameter, field or expression: flow unknown
 
 	for _, d := range pkgDirs {
 		ents, _ := os.ReadDir(d)
@@ -156,7 +162,7 @@ func main() {
 			ipath = mod + "/" + filepath.ToSlash(rel)
 		}
 		rep.Packages = append(rep.Packages, ipath)
-		info := &types.Info{Types: map[ast.Expr]types.TypeAndValue{}, Uses: map[*ast.Ident]types.Object{}, Selections: map[*ast.SelectorExpr]*types.Selection{}}
+		info := &types.Info{Types: map[ast.Expr]types.TypeAndValue{}, Uses: map[*ast.Ident]types.Object{}, Defs: map[*ast.Ident]types.Object{}, Selections: map[*ast.SelectorExpr]*types.Selection{}}
 		conf := types.Config{Importer: imp, Error: func(err error) {}}
 		_, terr := conf.Check(ipath, fset, files, info)
 		if terr != nil {
@@ -255,6 +261,24 @@ func main() {
 					prevHot = h
 				}
 			}
+			paramObjs := map[types.Object]bool{}
+			ast.Inspect(f, func(n ast.Node) bool {
+				if ft, ok := n.(*ast.FuncType); ok {
+					for _, fl := range []*ast.FieldList{ft.Params, ft.Results} {
+						if fl == nil {
+							continue
+						}
+						for _, fld := range fl.List {
+							for _, nm := range fld.Names {
+								if obj := info.Defs[nm]; obj != nil {
+									paramObjs[obj] = true
+								}
+							}
+						}
+					}
+				}
+				return true
+			})
 			commaOK := map[*ast.UnaryExpr]bool{}
 			inSelect := map[ast.Node]bool{}
 			ast.Inspect(f, func(n ast.Node) bool {
@@ -487,7 +511,47 @@ func main() {
 						sp = append(sp, splice{off: off(call.Lparen), end: off(call.Lparen) + 1, text: ", "})
 					}
 					used = true
+				case *ast.AssignStmt:
+					// x := make(chan T)  /  x = make(chan T): remember which variable
+					// holds an unbuffered channel
+					for i, rhs := range n.Rhs {
+						if isUnbufferedMake(rhs, info) && i < len(n.Lhs) {
+							if id, ok := n.Lhs[i].(*ast.Ident); ok {
+								if obj := info.Defs[id]; obj != nil {
+									unbufObjs[obj] = true
+									knownMakes[rhs.Pos()] = true
+								} else if obj := info.Uses[id]; obj != nil {
+									unbufObjs[obj] = true
+									knownMakes[rhs.Pos()] = true
+								}
+							}
+						}
+					}
+				case *ast.ValueSpec:
+					for i, rhs := range n.Values {
+						if isUnbufferedMake(rhs, info) && i < len(n.Names) {
+							if obj := info.Defs[n.Names[i]]; obj != nil {
+								unbufObjs[obj] = true
+								knownMakes[rhs.Pos()] = true
+							}
+						}
+					}
+				case *ast.CallExpr:
+					if isUnbufferedMake(n, info) {
+						unbufferedMakes = append(unbufferedMakes, fmt.Sprintf("%s:%d", relFile, line(n.Pos())))
+						allMakes = append(allMakes, n.Pos())
+					}
 				case *ast.SendStmt:
+					sends = append(sends, fmt.Sprintf("%s:%d", relFile, line(n.Pos())))
+					if id, ok := n.Chan.(*ast.Ident); ok && info.Uses[id] != nil {
+						if v, isVar := info.Uses[id].(*types.Var); isVar && !v.IsField() && !paramObjs[v] {
+							sendObjs[info.Uses[id]] = true
+						} else {
+							unknownSend = true
+						}
+					} else {
+						unknownSend = true
+					}
 					if inSelect[n] {
 						break
 					}
@@ -565,6 +629,28 @@ func main() {
 			}
 		}
 	}
+	rendezvous := false
+	for o := range unbufObjs {
+		if sendObjs[o] {
+			rendezvous = true
+		}
+	}
+	for _, p := range allMakes {
+		if !knownMakes[p] && len(sends) > 0 {
+			rendezvous = true // an unbuffered channel that escapes our simple flow tracking
+		}
+	}
+	if len(unbufferedMakes) > 0 && unknownSend {
+		rendezvous = true
+	}
+	if rendezvous {
+		// Channel operations are modelled by polling. Two polling parties never
+		// meet on an unbuffered channel (a non-blocking send only succeeds if a
+		// receiver is parked, and vice versa), so a value handed over an
+		// unbuffered channel between simulated tasks cannot be modelled; close-only
+		// signalling channels and buffered channels can.
+		rep.ChanOps = append(rep.ChanOps, fmt.Sprintf("unbuffered channel(s) created at %v with send(s) at %v: rendezvous between simulated tasks is not modelled", unbufferedMakes, sends))
+	}
 	// generated site count
 	var hot []string
 	for _, st := range rep.Sites {
@@ -583,6 +669,23 @@ func main() {
 		}
 	}
 	fmt.Printf("instrument: %d packages, %d yield sites, %d map ranges, %d go statements, shims %v\n", len(rep.Packages), rep.Yields, rep.MapRanges, len(rep.GoStmts), rep.Shimmed)
+}
+
+func isUnbufferedMake(e ast.Expr, info *types.Info) bool {
+	c, ok := e.(*ast.CallExpr)
+	if !ok || len(c.Args) != 1 {
+		return false
+	}
+	id, ok := c.Fun.(*ast.Ident)
+	if !ok || id.Name != "make" {
+		return false
+	}
+	tv, ok := info.Types[c.Args[0]]
+	if !ok || !tv.IsType() {
+		return false
+	}
+	_, isChan := tv.Type.Underlying().(*types.Chan)
+	return isChan
 }
 
 func isErrorType(t types.Type) bool {
